@@ -25,26 +25,28 @@ Section CollMerge.
   Variable M : kind -> kind -> kind.   (* merge_keep(_, overwrite) *)
   Variable U : kind -> kind -> kind.   (* merge_keep(_, false) = union *)
 
+  (* first loop of Collection::merge: the new kind of an entry (key, sk) of self.known *)
+  Definition merge_self_entry (ow : bool) (r : coll_ K kind) (key : K) (sk : kind) : kind :=
+    let ru := unknown_kind r in
+    match aget keqb (known r) key with
+    | Some ok => if ow then ok else U sk ok
+    | None =>
+        if contains_any_defined ru then
+          (if ow then U (remove_undefined ru) sk else U sk ru)
+        else if ow then sk else or_undefined sk
+    end.
+
+  (* second part: an entry of other.known whose key self does not know; lu = self.unknown_kind() *)
+  Definition merge_other_entry (ow : bool) (lu : kind) (ok : kind) : kind :=
+    if contains_any_defined lu then (if ow then ok else U ok lu)
+    else if ow then ok else or_undefined ok.
+
   (* Collection::merge(self = l, other = r, overwrite = ow) *)
   Definition cmerge (ow : bool) (l r : coll_ K kind) : coll_ K kind :=
-    let ru := unknown_kind r in
-    let lu := unknown_kind l in
-    (* first loop: the known entries of self *)
-    let known1 :=
-      amap (fun key sk =>
-              match aget keqb (known r) key with
-              | Some ok => if ow then ok else U sk ok
-              | None =>
-                  if contains_any_defined ru then
-                    (if ow then U (remove_undefined ru) sk else U sk ru)
-                  else if ow then sk else or_undefined sk
-              end) (known l) in
+    let known1 := amap (merge_self_entry ow r) (known l) in
     (* what is left of other.known after the removals of the first loop *)
     let rest := filter (fun kv => negb (ahas keqb (known l) (fst kv))) (known r) in
-    let g (ok : kind) :=
-      if contains_any_defined lu then (if ow then ok else U ok lu)
-      else if ow then ok else or_undefined ok in
-    let known2 := aset_all kcmp known1 (map (fun kv => (fst kv, g (snd kv))) rest) in
+    let known2 := aset_all kcmp known1 (map (fun kv => (fst kv, merge_other_entry ow (unknown_kind l) (snd kv))) rest) in
     mkC known2 (umerge M (unknown l) (unknown r)).
 End CollMerge.
 
